@@ -390,7 +390,7 @@ impl<'a, T: Elem + SatisfyTraits<Tr>, M: MemCaps, Tr: ?Sized + TrCaps> Cx<'a, T,
                     self.out.unsupported = true;
                 }
             }
-            Op::IterScript { v, how, script, clone_at } => self.exec_iter_script(*v, *how, script, *clone_at),
+            Op::IterScript { v, how, script, skips, clone_at } => self.exec_iter_script(*v, *how, script, skips, *clone_at),
             Op::ViewWrite { v, at, via, id, w, j } => self.exec_view_write(*v, *at, *via, *id, *w, *j),
             Op::CloneEmptyIn { v, target } => match target {
                 #[cfg(feature = "alloc")]
@@ -656,7 +656,7 @@ impl<'a, T: Elem + SatisfyTraits<Tr>, M: MemCaps, Tr: ?Sized + TrCaps> Cx<'a, T,
         }
     }
 
-    fn exec_iter_script(&mut self, v: usize, how: IterHow, script: &[bool], clone_at: Option<usize>) {
+    fn exec_iter_script(&mut self, v: usize, how: IterHow, script: &[bool], skips: &[u8], clone_at: Option<usize>) {
         let bound = self.vec(v).len().saturating_add(4);
         macro_rules! steps {
             ($it:ident, $probe:expr, $n:ident, $pre:block) => {{
@@ -667,7 +667,13 @@ impl<'a, T: Elem + SatisfyTraits<Tr>, M: MemCaps, Tr: ?Sized + TrCaps> Cx<'a, T,
                     if $it.size_hint() != (l, Some(l)) {
                         self.note(format!("size_hint()={:?} but len()={}", $it.size_hint(), l));
                     }
-                    let item = if *back { $it.next_back() } else { $it.next() };
+                    let k = skips.get($n).copied().unwrap_or(0) as usize;
+                    let item = match (*back, k) {
+                        (false, 0) => $it.next(),
+                        (true, 0) => $it.next_back(),
+                        (false, k) => $it.nth(k),
+                        (true, k) => $it.nth_back(k),
+                    };
                     match item {
                         None => self.val(Val::None),
                         Some(e) => {
@@ -717,7 +723,7 @@ impl<'a, T: Elem + SatisfyTraits<Tr>, M: MemCaps, Tr: ?Sized + TrCaps> Cx<'a, T,
                     return;
                 }
                 let mut it = if how == IterHow::IterMut { self.vec(v).iter_mut() } else { self.vec(v).into_iter() };
-                steps!(it, pmut, _n, {});
+                steps!(it, pmut, n, {});
             }
             IterHow::TIter | IterHow::TIntoIterRef => {
                 let tv = self.vec(v).downcast_ref::<T>().expect("typed view of the right type");
@@ -737,7 +743,7 @@ impl<'a, T: Elem + SatisfyTraits<Tr>, M: MemCaps, Tr: ?Sized + TrCaps> Cx<'a, T,
                 }
                 let mut tv = self.vec(v).downcast_mut::<T>().expect("typed view of the right type");
                 let mut it = if how == IterHow::TIterMut { tv.iter_mut() } else { tv.into_iter() };
-                steps!(it, |e: &mut T| probe_val(&*e), _n, {});
+                steps!(it, |e: &mut T| probe_val(&*e), n, {});
             }
         }
     }
